@@ -562,6 +562,8 @@ core.PREDICATES["c05_mn_only_separators"] = pred_mn_only_separators
 
 def replay(w):
     tree = gen.from_xml(w["mathml"])
+    if not input_ok(tree):
+        return []            # outside the quantifier (the input itself could pass through as something markup-shaped)
     cfg = dict(w["cfg"])
     cfg.setdefault("tts", "None")
     nav = w.get("nav")
